@@ -142,6 +142,8 @@ func h2Goroutines() []gor {
 				g.site = "mutex"
 			case strings.Contains(blk, "h2.(*relay).processFrame"):
 				g.site = "process-frame"
+			case strings.Contains(blk, ").ReadFrame("):
+				g.site = "inline-read" // the reader itself sits in ReadFrame, outside its select
 			default:
 				g.site = "select"
 			}
